@@ -94,6 +94,18 @@ def check(case):
         # end points exactly
         if p == 0.0 or p == 1.0:
             require(conv.p == p, "%s does not fix the end point %r: %r", fwd, p, conv.p)
+        # the same number in another numeric type is the same composition
+        import numpy
+
+        forms = [("numpy.float64", numpy.float64(p))]
+        if p in (0.0, 1.0):
+            forms += [("int", int(p)), ("numpy.int64", numpy.int64(int(p)))]
+        for label, v in forms:
+            c2 = call(build.composition, v, frm)
+            require(not is_raised(c2), "Composition(p=%r as %s) was rejected: %r", p, label, c2)
+            conv2 = call(getattr(c2, fwd), mix)
+            require(not is_raised(conv2) and float(conv2.p) == conv.p and conv2.type == to,
+                    "%s of p=%r given as %s is %r, given as float %r", fwd, p, label, conv2, conv)
         # first + second = 1
         require(abs(conv.first + conv.second - 1.0) <= EPS, "first+second = %r", conv.first + conv.second)
         require(conv.first == conv.p, "first != p")
